@@ -1,3 +1,7 @@
--- This module serves as the root of the `Simpleline` library.
--- Import modules here that should be built as part of the library.
-import Simpleline.Basic
+import Simpleline.Model.Chars
+import Simpleline.Model.Text
+import Simpleline.Model.Grid
+import Simpleline.Model.Widgets
+import Simpleline.Model.KeyPattern
+import Simpleline.Model.Prompt
+import Simpleline.Model.Paging
